@@ -244,6 +244,12 @@ pub fn enumerate_field_pairs(file: &[u8]) -> Vec<Vec<Corrupt>> {
             v.dedup();
             v
         };
+        // values of the second field relative to the first (len == remaining, remaining +- 1; end == start)
+        let cur_a = rd32(file, fa.0);
+        let rel: Vec<u32> = vec![fa.2.wrapping_sub(cur_a), fa.2.wrapping_sub(cur_a).wrapping_add(1), fa.2.wrapping_sub(cur_a).wrapping_sub(1), cur_a, cur_a.wrapping_sub(1)];
+        for vb in rel {
+            out.push(vec![Corrupt::SetU32 { off: fb.0, value: vb, what: format!("{} (relative to {})", fb.1, fa.1) }]);
+        }
         for va in vals(&fa) {
             for vb in vals(&fb) {
                 out.push(vec![
